@@ -42,6 +42,10 @@ pub struct Case {
     pub other_target: bool,
     pub edit: Edit,
     pub probe_seconds: u32,
+    /// inject right after establishment (offset counts from there, the 130 s of operation are skipped): the
+    /// initiators' handshake objects still linger
+    #[serde(default)]
+    pub early: bool,
 }
 
 pub const OFFSETS: [u32; 12] = [0, 1, 2, 5, 30, 59, 61, 90, 119, 121, 300, 600];
@@ -56,6 +60,10 @@ fn pkt(from: usize, to: usize, seq: u32) -> Vec<u8> {
 }
 
 pub fn build_mesh(nodes: usize, cipher: u8) -> NetSim<Packet> {
+    build_mesh_opt(nodes, cipher, true)
+}
+
+pub fn build_mesh_opt(nodes: usize, cipher: u8, operate: bool) -> NetSim<Packet> {
     let mut sim: NetSim<Packet> = NetSim::new();
     for i in 0..nodes {
         let mut cfg = base_config();
@@ -75,6 +83,9 @@ pub fn build_mesh(nodes: usize, cipher: u8) -> NetSim<Packet> {
         }
     }
     sim.settle();
+    if !operate {
+        return sim;
+    }
     // operation: 130 s with one packet per 10 s in every direction (so that data datagrams exist in the capture)
     for t in 0..130u32 {
         sim.tick();
@@ -106,7 +117,7 @@ pub fn run_case(ctx: &Ctx, c: &Case) -> Outcome {
     ctx.eval();
     let cj = || json!({"kind": "replay", "case": c});
     let nodes = c.nodes.clamp(2, 3) as usize;
-    let mut sim = build_mesh(nodes, c.cipher);
+    let mut sim = build_mesh_opt(nodes, c.cipher, !c.early);
     let mut viols = vec![];
     let log_len = sim.wire_log.len();
     if !sim.all_connected() || !sim.panics.is_empty() {
@@ -189,6 +200,8 @@ pub fn run_case(ctx: &Ctx, c: &Case) -> Outcome {
         ));
     }
     // probe phase
+    sim.record = true;
+    sim.wire_log.clear();
     let mut lost = 0u32;
     let mut first_loss: Option<String> = None;
     let mut disconnected_at: Option<u32> = None;
@@ -241,6 +254,14 @@ pub fn run_case(ctx: &Ctx, c: &Case) -> Outcome {
     );
     // signature: what an outsider did + which effect it had
     let sigbase = format!("kind={}/edit={}/src={:?}", kind, if c.edit == Edit::Verbatim { "verbatim" } else { "edited" }, c.source);
+    // a mesh node that dials (sends a ping to) another mesh node during the probe phase had lost that peer
+    if let Some(d) = sim.wire_log.iter().find(|d| d.data.first() == Some(&0xff) && d.data.get(12) == Some(&1) && sim.index.contains_key(&d.src) && sim.index.contains_key(&d.dst)) {
+        viols.push(Viol::new(
+            format!("{}/effect=peer-dropped-and-redialled", sigbase),
+            format!("{}: at t={} node {} dials node {} again - it had dropped a healthy peer", what, d.sent_at, sim.index[&d.src], sim.index[&d.dst]),
+            cj(),
+        ));
+    }
     if let Some((n, p, ctxt)) = sim.panics.first() {
         viols.push(Viol::new(format!("{}/effect=panic", sigbase), format!("{}: node {} panicked: {} at {} ({})", what, n, p.msg, p.loc, ctxt), cj()));
     }
@@ -295,7 +316,19 @@ pub fn run(ctx: &Ctx) {
                         if other_target && source == Source::Original && *e != Edit::Verbatim {
                             continue;
                         }
-                        cases.push(Case { nodes: 2, cipher: (i % 3) as u8, datagram: i as u16, offset: off, source, other_target, edit: *e, probe_seconds });
+                        cases.push(Case { nodes: 2, cipher: (i % 3) as u8, datagram: i as u16, offset: off, source, other_target, edit: *e, probe_seconds, early: false });
+                    }
+                }
+            }
+        }
+    }
+    // early injections: right after establishment (4 captured datagrams), while handshake objects linger
+    for i in 0..4usize {
+        for off in [0u32, 1, 5, 30, 59, 61] {
+            for source in [Source::Original, Source::Unknown] {
+                for other_target in [false, true] {
+                    for e in &edits {
+                        cases.push(Case { nodes: 2, cipher: (i % 3) as u8, datagram: i as u16, offset: off, source, other_target, edit: *e, probe_seconds, early: true });
                     }
                 }
             }
@@ -316,7 +349,7 @@ pub fn run(ctx: &Ctx) {
         }
         ctx.report(o.viols);
     });
-    ctx.subspace(&format!("2-node mesh: {} captured datagrams x 12 offsets x sources x targets x edits", n2), total, true);
+    ctx.subspace(&format!("2-node mesh: {} captured datagrams x 12 offsets x sources x targets x edits, plus early injections (linger minute)", n2), total, true);
 
     // 3-node meshes: sampled, includes "another peer" as claimed source
     let n3: u32 = ctx.tier.pick(1_500, 12_000);
@@ -332,10 +365,12 @@ pub fn run(ctx: &Ctx) {
                 any::<bool>(),
                 prop_oneof![4 => Just(Edit::Verbatim), 1 => (any::<u16>(), 0u8..8).prop_map(|(k, b)| Edit::Flip(k, b)), 1 => any::<u16>().prop_map(Edit::Truncate)],
                 0u8..3,
+                any::<bool>(),
             )
         },
-        |(d, off, source, other_target, edit, cipher)| {
-            let c = Case { nodes: 3, cipher: *cipher, datagram: *d, offset: OFFSETS[*off], source: *source, other_target: *other_target, edit: *edit, probe_seconds: ctx.tier.pick(130, 400) };
+        |(d, off, source, other_target, edit, cipher, early)| {
+            // early cases: the capture holds the 3 x 4 establishment datagrams only; offsets inside the linger minute
+            let c = Case { nodes: 3, cipher: *cipher, datagram: *d, offset: if *early { [0, 1, 5, 30, 59, 61][*off % 6] } else { OFFSETS[*off] }, source: *source, other_target: *other_target, edit: *edit, probe_seconds: ctx.tier.pick(130, 400), early: *early };
             let o = run_case(ctx, &c);
             if c.edit == Edit::Verbatim || c.source != Source::Unknown {
                 ctx.nontrivial(&format!("{:?}", c));
